@@ -180,6 +180,7 @@ inductive Op where
   | ctxOf (v : String)
   | ctxLocal
   | toRecords (x : String) (trace span : Nat)
+  | dropLocalSpans (x : String)             -- a `LocalSpans` value goes out of scope (or was moved into a call)
   | cycle
   | flush
   | cycBegin
@@ -860,6 +861,7 @@ def exec (s : Sys) (t : Nat) (op : Op) : Sys × Obs :=
     match assocGet s.lspans x with
     | none => (s, .badOp "unknown local spans")
     | some ls => (s, .records (toSpanRecords id ls.spans ls.endT trace span))
+  | .dropLocalSpans x => ({ s with lspans := assocDel s.lspans x }, .ok)
   | .cycle | .flush =>
     if s.cyc.isSome then (s, .badOp "cycle already in progress") else
     let (s, rep) := s.cycle
